@@ -39,7 +39,7 @@ def run(ctx, model_ok):
         ctx.cov["evaluations"] += ss["ops"]
         ctx.cov["traces_validated_against_impl"] += ss["histories"]
         ctx.cov["rule"] += ("; sstate stream: random histories (2-12 operations: update on the root or a sub-object in nested / magic / mixed notation with all flag combinations, attribute "
-                            "assignment of leaf values, None, dicts, strings, unknown names, method names, the deprecated alias, defaults.reset(), display.style.reset(), obj.style = dict / None / "
+                            "assignment of leaf values, None, dicts, strings, unknown names, method / dunder / private-slot / unknown underscored names, the deprecated alias, defaults.reset(), display.style.reset(), obj.style = dict / None / "
                             "other.style, reads) on the real magpylib.defaults and on 0-3 real objects of all eight object classes; outcome (exception class) and the full as_dict() of the object "
                             "touched compared exactly after EVERY operation with Model/StyleState.lean run on the regenerated classes / validators / DEFAULTS (Gen/StyleSchema); the real heap is "
                             "checked for property objects shared between objects, and a final reset() against the pristine as_dict(); defaults are reset before and after every history")
@@ -50,12 +50,14 @@ def run(ctx, model_ok):
                             "copy independence in the CPython heap: for update_nested_dict modelled with addresses (theorem update_nested_sharing, stream compares id()), "
                             "for style objects oracle only",
                             "enumeration-valued leaves (symbols, line styles) are sampled only through their defaults",
-                            "refinement of a whole history to a map path -> value ('a read gives the last accepted write else the default'): proved are the single-step core "
-                            "(leaf_write_read_back_partial at any depth), reset_restores for every history, the frame between objects, and that rejected assignments change nothing; the frame for the "
-                            "OTHER leaves of the same object under update() rests on stability of the state (update() re-assigns every property), which is proved for the states at import time "
-                            "(initial_states_stable) and otherwise observed by the sstate stream, not proved",
-                            "'invalid names are rejected' holds in the code only for names that are not attributes of the class: method names (copy, update, as_dict, reset, add_trace) and "
-                            "underscore names are accepted by MagicProperties.__setattr__ (witness method_names_not_rejected; the model reports `shadow` and makes no claim afterwards)",
+                            "refinement of a whole history to a map path -> value ('a read gives the last accepted write else the default'): proved (defaults_reads_refine_partial) for "
+                            "histories in which magpylib.defaults itself is changed by assignments to plain properties at any depth (accepted or rejected), reset() and reads, with arbitrary "
+                            "operations on the objects in between; NOT proved for update() / dict assignments / display.style.reset() on the defaults and for the objects' own styles: these "
+                            "re-build sub-objects from their dictionaries, and that this changes no other leaf needs `construct` to be idempotent on every reached state (stability preserved by "
+                            "every operation) — proved for the states at import time (initial_states_stable), otherwise observed by the sstate stream on every final state",
+                            "'invalid names are rejected': a theorem for every name that is not a property and not in the regenerated per-class list of non-property names the code still "
+                            "lets through (private slots `_color`, `__doc__`, `__module__`, `__dict__`, the frozen flag — witness private_slots_not_rejected; the model reports `shadow` for "
+                            "them and makes no claim afterwards); every method / dunder-method name is rejected since repo fix 3fc7703 (method_names_rejected)",
                             "a rejected update() is not atomic in the code (witness rejected_update_applies_earlier_keys): 'a rejected operation leaves the state unchanged' is a theorem for attribute "
                             "assignment only",
                             "value validation is a regenerated TABLE (every leaf setter probed on None, a dict and a panel of 86 values closed under the setters), not a model of the validators' code; "
